@@ -1517,7 +1517,7 @@ package main
 //@   uses kvtext
 //@   modifies W
 //@   ensures text: result == kvText(kv)
-//@   ensures existing-writers-kept: forall w int :: old(allocated(w)) ==> W[w] == old(W[w])
+//@   ensures existing-writers-kept: forall w int :: !fresh(w) ==> W[w] == old(W[w])
 
 //@ func ParseGenericParam
 //@   props C14
@@ -1588,3 +1588,37 @@ package main
 //@   ensures sip: (hasPrefix(addrSpec, "sip:") || hasPrefix(addrSpec, "sips:")) && err == nil ==> result != nil && fresh(result) && result.sipURI != nil && result.absoluteURI == nil
 //@   ensures failed: err != nil ==> result == nil
 
+
+// ---- serialisation law of a message (C01) ----
+//@ func (*Message).encodeHeader
+//@   props C01 C17
+//@   uses msgtext
+//@   modifies W
+//@   ensures only-this-writer: forall w int :: w != refOf(writer) ==> W[w] == old(W[w])
+//@   ensures header-section: isType(writer, "*bytes.Buffer") ==> W[refOf(writer)] == old(W[refOf(writer)]) + hdrsText(m.headers, len(m.headers))
+//@   loop 0:
+//@     invariant forall w int :: w != refOf(writer) ==> W[w] == old(W[w])
+//@     invariant 0 <= $i && $i <= len(m.headers)
+//@     invariant isType(writer, "*bytes.Buffer") ==> W[refOf(writer)] == old(W[refOf(writer)]) + hdrsText(m.headers, $i)
+
+//@ func (*AddrSpec).String
+//@   props C01 C14
+//@   uses kvtext addrtext
+//@   modifies W
+//@   ensures text: result == addrSpecText(as)
+//@   ensures existing-writers-kept: forall w int :: !fresh(w) ==> W[w] == old(W[w])
+
+//@ func (*Message).encodeFirstLine
+//@   props C01
+//@   uses kvtext addrtext msgtext
+//@   modifies W
+//@   ensures only-this-writer: forall w int :: !fresh(w) && w != refOf(writer) ==> W[w] == old(W[w])
+//@   ensures start-line: isType(writer, "*bytes.Buffer") ==> W[refOf(writer)] == old(W[refOf(writer)]) + firstLineText(m)
+
+//@ func (*Message).Write
+//@   props C01
+//@   uses kvtext addrtext msgtext
+//@   modifies W
+//@   ensures only-this-writer: forall w int :: !fresh(w) && w != refOf(writer) ==> W[w] == old(W[w])
+//@   ensures wire-format: isType(writer, "*bytes.Buffer") ==> W[refOf(writer)] == old(W[refOf(writer)]) + firstLineText(m) + hdrsText(m.headers, len(m.headers))
+//@        + "Content-Length: " + itoa(len(m.body)) + "\r\n\r\n" + m.body
